@@ -27,7 +27,12 @@ var Hosts = []string{
 	// Names on which a character-class pre-check and the address parser
 	// disagree, and non-ASCII host names.
 	"1.2.3", "1.2.3.4.5", "abc", "12", "fe80", "bücher.example", "пример.рф",
+	// A label of the maximum length of 63 characters.
+	Label63 + ".com", "x." + Label63 + ".a.com",
 }
+
+// Label63 is a host name label of the maximum legal length.
+const Label63 = "a23456789-b23456789-c23456789-d23456789-e23456789-f23456789-xyz"
 
 // DomainValues are values for $domain and $denyallow.
 var DomainValues = []string{
@@ -60,7 +65,7 @@ var PatternTemplates = []string{
 	"HOST/ads", "://HOST", "http://HOST", "||HOST/*", "||HOST^$", ".HOST^", "||HOST:8080^",
 	"/ads/banner", "ads", "/ads^", "banner.js|", ".js|", "?q=", "=http", "/path/*/img", "^ads^", "*ads*",
 	"/Ads/b", "ADS.JS", "/abcde", "ababa", "babab", "/banner|", "|ws://", "|http", "://", "^", "*", "|", "||", "",
-	"/track", "/track/*.gif", "pixel.gif|", "ads_banner", "ads%20", "/ads.", "js", "a", "/x?ads=1", "/HOST.",
+	"/track", "/track/*.gif", "pixel.gif|", "ads_banner", "ads%20", "/ads.", "/ad_s.", "/a*s.", "js", "a", "/x?ads=1", "/HOST.",
 	// Runs of wildcards and wildcards next to other operators.
 	"/bännér", "реклама", "||HOST/реклама^", "İstanbul", "||HOST/**", "/ads/***", "||HOST^**", "ads**banner", "**ads", "||HOST/*/*", "*/ads/*", "|*ads", "ads*|", "^*^", "/banner**|",
 }
